@@ -172,6 +172,8 @@ class Driver(hlib.Driver):
                     break
 
     def run(self, lines, timeout: float = 600.0):
+        if not lines:
+            return []
         last = None
         for _ in range(20):
             try:
@@ -180,6 +182,22 @@ class Driver(hlib.Driver):
                 last = exc
                 time.sleep(3)
         raise last
+
+
+def guarded(res, name, part):
+    """an exception out of the implementation in the middle of a harness part is a finding about the tree under test, not a broken check
+    (a failure of the model driver itself stays a crash: exit 2)"""
+    import traceback
+    try:
+        part()
+    except RuntimeError as exc:
+        if "driver" in str(exc):
+            raise
+        res.violate("harness-exception", f"unexpected exception in part '{name}': {type(exc).__name__}: {exc}", {"kind": "exception", "part": name},
+                    None, traceback.format_exc()[-1500:])
+    except Exception as exc:  # noqa: BLE001
+        res.violate("harness-exception", f"unexpected exception in part '{name}': {type(exc).__name__}: {exc}", {"kind": "exception", "part": name},
+                    None, traceback.format_exc()[-1500:])
 
 
 def apply_replay(a):
